@@ -73,6 +73,7 @@ func (Engine) Generate(prop, tier string, seed, run uint64) json.RawMessage {
 	cfg.CoarseTick = true
 	cfg.Jumble = true
 	cfg.Chatty = true
+	cfg.Resume = prop == "C08"
 	spec := netsim.Gen(r, cfg)
 	nf := len(netsim.Build(spec).Files)
 	p := Plan{Prop: prop, Seed: seed, Net: *spec, SnapEvery: 100_000}
@@ -358,7 +359,18 @@ func (Engine) Execute(planJSON json.RawMessage, scratch string) (res sim.RunResu
 			// the inactivity timeout was (legitimately) split into two streams at
 			// that point; when a later import fills the gap the streams become one
 			wasSplit := map[string]bool{}
+			// "a gap was filled": fewer such gaps now than at some earlier point of
+			// the history (a flow that really falls silent for longer than the
+			// timeout keeps its gap and is not covered by the known finding)
+			maxGaps := map[string]int{}
+			var importedNow map[int]bool
 			noteSplits := func(imported map[int]bool) {
+				importedNow = imported
+				for _, k := range keyOfConv {
+					if g := gapCount(capt, imported, keyOfConv, k); g > maxGaps[k] {
+						maxGaps[k] = g
+					}
+				}
 				times := map[int][]int64{}
 				for fi := range capt.Files {
 					if !imported[fi] {
@@ -377,8 +389,11 @@ func (Engine) Execute(planJSON json.RawMessage, scratch string) (res sim.RunResu
 					}
 				}
 			}
+			gapFilled := func(k string) bool {
+				return wasSplit[k] && gapCount(capt, importedNow, keyOfConv, k) < maxGaps[k]
+			}
 			suffix := func(k string) string {
-				if wasSplit[k] {
+				if gapFilled(k) {
 					return "/after-gap-filled"
 				}
 				return ""
@@ -426,9 +441,10 @@ func (Engine) Execute(planJSON json.RawMessage, scratch string) (res sim.RunResu
 			}
 			if msg := oracle.SameUpToNumbering(ref, vis); msg != "" {
 				sfx := ""
-				for k, v := range wasSplit {
+				for k := range wasSplit {
 					// the message names the endpoints of the stream without counterpart
 					a, b, _ := strings.Cut(strings.SplitN(k, "|", 2)[1], "|")
+					v := gapFilled(k)
 					if v && (strings.Contains(msg, strings.Replace(a, ":", ":", 1)) || strings.Contains(msg, b)) {
 						sfx = "/after-gap-filled"
 					}
@@ -752,6 +768,30 @@ func execStackMerge(p *Plan, scratch string, res *sim.RunResult, viol func(oracl
 
 // currentlySplit: do the packets of connection k imported so far have an idle
 // gap longer than the inactivity timeout?
+// gapCount: the number of idle gaps longer than the inactivity timeout between
+// the packets of connection k in the imported files.
+func gapCount(capt *netsim.Capture, imported map[int]bool, keyOfConv []string, k string) int {
+	var ts []int64
+	for fi := range capt.Files {
+		if !imported[fi] {
+			continue
+		}
+		for _, pk := range capt.Files[fi] {
+			if keyOfConv[pk.Conv] == k {
+				ts = append(ts, pk.TimeUS)
+			}
+		}
+	}
+	sort.Slice(ts, func(i, j int) bool { return ts[i] < ts[j] })
+	n := 0
+	for i := 1; i < len(ts); i++ {
+		if ts[i]-ts[i-1] > 300_000_000 {
+			n++
+		}
+	}
+	return n
+}
+
 func currentlySplit(capt *netsim.Capture, imported map[int]bool, keyOfConv []string, k string) bool {
 	var ts []int64
 	for fi := range capt.Files {
